@@ -26,10 +26,6 @@ from vlib.core import Acc
 DELTA = 0.125
 
 
-def rel(value, threshold):
-    return "below" if value < threshold else ("on" if value == threshold else "above")
-
-
 def describe_error(err):
     return "%s: %s" % (type(err).__name__, err)
 
@@ -227,11 +223,14 @@ def run_regulator_case(case):
         else:
             pool.supply, interval = extra
         before = pool.demand
-        where = "%s:u-%s-low:a-%s-high" % (kind, rel(utilisation, low), rel(allocation, high))
+        down, up = utilisation < low, allocation > high
+        want = "either" if down and up else "down" if down else "up" if up else "none"
+        marks = (":u-on-low" if utilisation == low else "") + (
+            ":a-on-high" if allocation == high else "")
         try:
             controller.regulate(interval)
         except Exception as err:  # noqa: B902
-            return "%s:raised-%s" % (where, type(err).__name__), (
+            return "%s:want-%s:raised-%s%s" % (kind, want, type(err).__name__, marks), (
                 "step %d: regulate(%r) raised %s" % (index + 1, interval, describe_error(err)))
         after = pool.demand
         if kind == "linear":
@@ -241,7 +240,8 @@ def run_regulator_case(case):
             problem = relsupply_problem(low, high, case["low_scale"], case["high_scale"],
                                         utilisation, allocation, pool.supply, after)
         if problem:
-            return "%s:%s" % (where, problem[0]), (
+            label = problem[0] if kind == "relsupply" else "want-%s:%s" % (want, problem[0])
+            return "%s:%s%s" % (kind, label, marks), (
                 "step %d: utilisation=%r (low_utilisation=%r) allocation=%r "
                 "(high_allocation=%r) interval=%r supply=%r demand %r -> %r: %s" % (
                     index + 1, utilisation, low, allocation, high, interval, pool.supply,
@@ -352,16 +352,10 @@ def entry_index(thresholds, value):
     return 0 if entry is None else entry + 1
 
 
-def position_class(thresholds, value):
-    if not thresholds:
-        return "no-thresholds"
-    if value in thresholds:
-        return "on-threshold"
-    if value < min(thresholds):
-        return "below-all"
-    if value > max(thresholds):
-        return "above-all"
-    return "between"
+def table_class(thresholds, value):
+    """Coarse class of a selection: is the value on a threshold, is the table sorted"""
+    return "%s:%s" % ("on-threshold" if value in thresholds else "off-threshold",
+                      order_class(thresholds))
 
 
 def order_class(thresholds):
@@ -452,44 +446,44 @@ def run_stepwise_case(case):
     demand = case["demand"]
     for k, supply in enumerate(supplies):
         instant = k * interval
-        where = "stepwise:supply-%s:%s" % (position_class(thresholds, supply), orders)
+        sel = ":" + table_class(thresholds, supply)   # selection problems carry the class
         text = "step %d (t=%s, supply=%r, thresholds as declared %r): " % (
             k + 1, instant, supply, thresholds)
         calls = [e for e in log if e[0] == instant and e[1] == "rule"]
         writes = [e for e in log if e[0] == instant and e[1] == "set" and e[3] == "demand"]
         if not calls and (run.exception is not None and run.ended_at == instant):
-            return where + ":raised-%s" % type(run.exception).__name__, (
+            return "stepwise:raised-%s" % type(run.exception).__name__ + sel, (
                 text + "run() raised %s" % describe_error(run.exception))
         if not calls and run.runaway:
-            return where + ":runaway", text + run.runaway
+            return "stepwise:runaway", text + run.runaway
         want = expected_entry(thresholds, supply)
         want_index = 0 if want is None else want + 1
         if len(calls) != 1:
-            return where + (":no-rule-called" if not calls else ":several-rules-called"), (
+            return "stepwise:" + ("no-rule-called" if not calls else "several-rules-called") + sel, (
                 text + "rules called: %r, expected exactly rule %d once" % (
                     [c[2] for c in calls], want_index))
         _, _, index, args, kwargs = calls[0]
         if index != want_index:
-            return where + ":wrong-rule", text + "rule %d%s was applied, expected rule %d%s" % (
+            return "stepwise:wrong-rule" + sel, text + "rule %d%s was applied, expected rule %d%s" % (
                 index, " (threshold %r)" % thresholds[index - 1] if index else " (base)",
                 want_index, " (threshold %r)" % thresholds[want] if want_index else " (base)")
         if kwargs or len(args) != 2 or args[0] is not pool or args[1] != interval:
-            return where + ":rule-arguments", text + "rule called with %r %r, expected (pool, %r)" % (
+            return "stepwise:rule-arguments", text + "rule called with %r %r, expected (pool, %r)" % (
                 args, kwargs, interval)
         value = rule_return(tuple(case["pattern"]), index)
         if value is None:
             if writes:
-                return where + ":demand-written-on-None", (
+                return "stepwise:demand-written-on-None", (
                     text + "rule returned None but demand was written: %r" % (
                         [w[4] for w in writes],))
         else:
             demand_now = writes[-1][4] if writes else demand
             if not writes or demand_now != value:
-                return where + ":demand-not-set-to-%s" % ("zero" if value == 0 else "result"), (
+                return "stepwise:demand-not-set-to-%s" % ("zero" if value == 0 else "result"), (
                     text + "rule returned %r but demand is %r" % (value, demand_now))
             demand = demand_now
         if run.exception is not None and run.ended_at == instant:
-            return where + ":raised-%s" % type(run.exception).__name__, (
+            return "stepwise:raised-%s" % type(run.exception).__name__ + sel, (
                 text + "run() raised %s" % describe_error(run.exception))
     if pool.peek("demand") != demand:
         return "stepwise:demand-changed-outside-steps", "demand ended at %r, expected %r" % (
@@ -555,36 +549,36 @@ def run_switch_case(case):
         pool.demand = demand
         pool.writes = 0
         del log[:]
-        where = "switch:demand-%s:%s" % (position_class(thresholds, demand), orders)
+        sel = ":" + table_class(thresholds, demand)
         text = "step %d (demand=%r, thresholds as declared %r): " % (
             step + 1, demand, thresholds)
         try:
             switch.regulate(interval)
         except Exception as err:  # noqa: B902
-            return where + ":raised-%s" % type(err).__name__, (
+            return "switch:raised-%s" % type(err).__name__ + sel, (
                 text + "regulate(%r) raised %s" % (interval, describe_error(err)))
         want = expected_entry(thresholds, demand)
         want_index = 0 if want is None else want + 1
         if len(log) != 1:
-            return where + (":no-controller-called" if not log else ":several-controllers-called"), (
+            return "switch:" + ("no-controller-called" if not log else "several-controllers-called") + sel, (
                 text + "controllers called: %r, expected exactly controller %d once" % (
                     [entry[0] for entry in log], want_index))
         index, got_interval, target = log[0]
         if index != want_index:
-            return where + ":wrong-controller", (
+            return "switch:wrong-controller" + sel, (
                 text + "controller %d%s was used, expected controller %d%s" % (
                     index, " (threshold %r)" % thresholds[index - 1] if index else " (default)",
                     want_index,
                     " (threshold %r)" % thresholds[want] if want_index else " (default)"))
         if target is not pool:
-            return where + ":controller-target-%s" % ("own" if targets[index] else "None"), (
+            return "switch:controller-target-%s" % ("own" if targets[index] else "None"), (
                 text + "controller %d acted on %r, not on the switch's target" % (index, target))
         if got_interval != interval:
-            return where + ":controller-interval", (
+            return "switch:controller-interval", (
                 text + "controller got interval %r, the step was regulate(%r)" % (
                     got_interval, interval))
         if pool.writes or pool.demand != demand:
-            return where + ":switch-wrote-demand", (
+            return "switch:switch-wrote-demand", (
                 text + "demand is %r although the chosen controller did not touch it"
                 % pool.demand)
     for index, controller in enumerate(controllers):
